@@ -36,10 +36,30 @@ const (
 	BodyReadErr              // 200, the body fails with io.ErrUnexpectedEOF after some bytes
 	Abort                    // transport error (connection reset), no response
 	OAuthErr400              // 400 + {"error":"server_error"} (decoded by the library as *oidc.Error)
+	StatusBody               // Step.Status + Step.Body: any status code with any of the BodyKind documents
 )
 
+// BodyKind is the document of a StatusBody step.
+type BodyKind int
+
+const (
+	BodyCurrent     BodyKind = iota // the JWKS document currently served
+	BodyForeign                     // the alternative document (SetAltBody): a JWKS with a key nobody serves
+	BodyEmptyObject                 // {}
+	BodyMessage                     // {"message":"upstream down"} (a gateway's JSON error page, no "error" member)
+	BodyEmptyKeys                   // {"keys":[]}
+	BodyArray                       // []
+	BodyEmpty                       // no bytes
+	BodyHTML                        // an HTML error page
+)
+
+var bodyNames = map[BodyKind]string{BodyCurrent: "current-jwks", BodyForeign: "foreign-jwks", BodyEmptyObject: "empty-object", BodyMessage: "json-message",
+	BodyEmptyKeys: "empty-keys", BodyArray: "json-array", BodyEmpty: "no-body", BodyHTML: "html"}
+
+func (b BodyKind) String() string { return bodyNames[b] }
+
 var kindNames = map[Kind]string{Deliver: "deliver", Status500: "http500", Truncated: "truncated", KeysNotArray: "keys-not-array",
-	BodyReadErr: "body-read-error", Abort: "abort", OAuthErr400: "oauth-error-400"}
+	BodyReadErr: "body-read-error", Abort: "abort", OAuthErr400: "oauth-error-400", StatusBody: "status-body"}
 
 func (k Kind) String() string { return kindNames[k] }
 
@@ -48,15 +68,43 @@ func (k Kind) Faulty() bool { return k != Deliver }
 
 // Step is the scripted behaviour of one download.
 type Step struct {
-	Kind Kind
-	Hold bool // park the request at a gate until Release / ReleaseAll (or until its context ends)
+	Kind   Kind
+	Hold   bool     // park the request at a gate until Release / ReleaseAll (or until its context ends)
+	Status int      // StatusBody only
+	Body   BodyKind // StatusBody only
+}
+
+func (s Step) name() string {
+	if s.Kind == StatusBody {
+		return fmt.Sprintf("status-%d+%s", s.Status, s.Body)
+	}
+	return s.Kind.String()
 }
 
 func (s Step) String() string {
 	if s.Hold {
-		return "hold+" + s.Kind.String()
+		return "hold+" + s.name()
 	}
-	return s.Kind.String()
+	return s.name()
+}
+
+// EmptySet200 tells whether the step answers 200 with a well-formed but empty key set ({} or {"keys":[]}).
+func (s Step) EmptySet200() bool {
+	return s.Kind == StatusBody && s.Status == 200 && (s.Body == BodyEmptyObject || s.Body == BodyEmptyKeys)
+}
+
+// Faulty tells whether a download answered by this step can not yield the served keys: everything but Deliver and
+// 200 + current document. (EmptySet200 is "faulty" in this sense too; the checks treat it as a class of its own.)
+func (s Step) Faulty() bool {
+	if s.Kind == StatusBody {
+		return !(s.Status == 200 && s.Body == BodyCurrent)
+	}
+	return s.Kind != Deliver
+}
+
+// NonOKWithJWKS tells whether the step answers a status other than 200 with a body that is a well-formed JWKS document.
+func (s Step) NonOKWithJWKS() bool {
+	return s.Kind == StatusBody && s.Status != 200 && (s.Body == BodyCurrent || s.Body == BodyForeign || s.Body == BodyEmptyKeys)
 }
 
 // Download is one logged request.
@@ -68,7 +116,7 @@ type Download struct {
 	StartSeq int64  `json:"start"`
 	EndSeq   int64  `json:"end"` // 0 while in flight
 	Held     bool   `json:"held"`
-	kind     Kind
+	step     Step
 	ok       bool
 }
 
@@ -76,7 +124,15 @@ type Download struct {
 func (d Download) OK() bool { return d.ok }
 
 // ScriptedFaulty tells whether the script meant this download to fail (whatever ended it in fact).
-func (d Download) ScriptedFaulty() bool { return d.kind.Faulty() }
+func (d Download) ScriptedFaulty() bool { return d.step.Faulty() }
+
+// EmptySet tells whether the download answered 200 with a well-formed but empty key set.
+func (d Download) EmptySet() bool {
+	return d.step.EmptySet200() && d.Outcome != "ctx-cancelled" && d.EndSeq != 0
+}
+
+// ScriptStep returns the scripted step of the download.
+func (d Download) ScriptStep() Step { return d.step }
 
 // Cancelled tells whether the download ended because its request context ended.
 func (d Download) Cancelled() bool { return d.Outcome == "ctx-cancelled" }
@@ -100,6 +156,7 @@ func CallerOf(ctx context.Context) int {
 type Server struct {
 	mu         sync.Mutex
 	body       []byte
+	alt        []byte
 	script     []Step
 	def        Step
 	log        []*Download
@@ -110,6 +167,13 @@ type Server struct {
 }
 
 func New() *Server { return &Server{gates: map[int]chan struct{}{}} }
+
+// SetAltBody installs the document of BodyForeign steps (kept across phases).
+func (s *Server) SetAltBody(b []byte) {
+	s.mu.Lock()
+	s.alt = append([]byte(nil), b...)
+	s.mu.Unlock()
+}
 
 // Client returns an *http.Client whose every request is answered by s.
 func (s *Server) Client() *http.Client { return &http.Client{Transport: s} }
@@ -227,7 +291,7 @@ func (s *Server) RoundTrip(req *http.Request) (*http.Response, error) {
 	if idx < len(s.script) {
 		step = s.script[idx]
 	}
-	d := &Download{Idx: idx, Owner: CallerOf(ctx), Step: step.String(), StartSeq: mon.Seq(), kind: step.Kind}
+	d := &Download{Idx: idx, Owner: CallerOf(ctx), Step: step.String(), StartSeq: mon.Seq(), step: step}
 	s.log = append(s.log, d)
 	s.total++
 	var gate chan struct{}
@@ -269,7 +333,7 @@ func (s *Server) RoundTrip(req *http.Request) (*http.Response, error) {
 		return nil, err
 	}
 	s.mu.Lock()
-	body := s.body
+	body, alt := s.body, s.alt
 	s.mu.Unlock()
 	mk := func(code int, b []byte, ctype string) *http.Response {
 		return &http.Response{
@@ -281,6 +345,30 @@ func (s *Server) RoundTrip(req *http.Request) (*http.Response, error) {
 		}
 	}
 	switch step.Kind {
+	case StatusBody:
+		var b []byte
+		ctype := "application/json"
+		switch step.Body {
+		case BodyCurrent:
+			b = body
+		case BodyForeign:
+			b = alt
+		case BodyEmptyObject:
+			b = []byte(`{}`)
+		case BodyMessage:
+			b = []byte(`{"message":"upstream down"}`)
+		case BodyEmptyKeys:
+			b = []byte(`{"keys":[]}`)
+		case BodyArray:
+			b = []byte(`[]`)
+		case BodyEmpty:
+			b = nil
+		case BodyHTML:
+			b, ctype = []byte("<html><head><title>502 Bad Gateway</title></head><body><center><h1>502 Bad Gateway</h1></center></body></html>"), "text/html"
+		}
+		resp := mk(step.Status, b, ctype) // note: a 3xx carries no Location header, so the client hands it back as it is
+		finish(step.name(), !step.Faulty())
+		return resp, nil
 	case Deliver:
 		resp := mk(200, body, "application/json")
 		finish("deliver", true)
